@@ -139,7 +139,11 @@ func (exp *SplitExp) FindTypedRefs(list []*BoundReference,
 			return list, err
 		}
 	case *DisabledExp:
-		list, err := val.Value.FindTypedRefs(list, t, lookup)
+		// The type of the collection which is split depends on the
+		// kind of expression the value has when it is enabled.
+		enabled := *exp
+		enabled.Value = val.Value
+		list, err := enabled.FindTypedRefs(list, t, lookup)
 		if err != nil {
 			return list, err
 		}
